@@ -254,9 +254,14 @@ func runC05(c c05Case) *vlib.Outcome {
 		r := &retyper{mask: c.Typing}
 		tp := r.value(gen.CopyMap(pat0), false)
 		td := r.value(gen.CopyMap(data0), false)
+		// (the initial bindings' values are Go-typed in the same way)
+		ti := core.Bindings{}
+		for k, v := range gen.CopyMap(init0) {
+			ti[k] = r.value(v, false)
+		}
 		if r.used > 0 {
 			o.Label("typed-variant")
-			tgot, terr := core.Match(nil, tp, td, core.Bindings(gen.CopyMap(init0)))
+			tgot, terr := core.Match(nil, tp, td, ti)
 			if terr != nil {
 				o.Fail("TYPED_ERROR", "typed variant of pattern %s data %s (mask %d) failed: %v", vlib.JSON(pat0), vlib.JSON(data0), c.Typing, terr)
 			} else {
